@@ -126,7 +126,8 @@ def run(tier, seed):
         if len(obs["xs"]) == c["iterations"] + 1:
             guard_kinds["ran_to_end"] += 1
         elif c["mono"] and len(obs["calls"]) and True:
-            guard_kinds["monotone" if not (math.isnan(t.log[-1][2]) or math.isinf(t.log[-1][2])) else "nan_or_inf"] += 1
+            last_mis = next((e[2] for e in reversed(t.log) if e[0] == "misfit"), float("nan"))
+            guard_kinds["monotone" if math.isfinite(last_mis) else "nan_or_inf"] += 1
         else:
             guard_kinds["nan_or_inf"] += 1
         if i < 3:
